@@ -774,6 +774,10 @@ func scSigInput(hh []byte, nonce *[24]byte, final bool, chunk []byte) []byte {
 	return append(in, sha(chunk)...)
 }
 
+// refHeaderOnly makes refOpenSc stop after the header (payload key, sender), as a forging
+// insider does: it must not depend on the sender's packets following the specification
+var refHeaderOnly bool
+
 // refOpenSc opens a signcrypted message with a box secret key (sk) or a symmetric key (symKey, symID).
 func refOpenSc(msg []byte, sk []byte, symKey, symID []byte) (*refOpened, error) {
 	hdrBytes, h, rest, err := refParseHeader(msg, 6)
@@ -847,6 +851,9 @@ func refOpenSc(msg []byte, sk []byte, symKey, symID []byte) (*refOpened, error) 
 		o.anon = true
 	} else {
 		o.senderPk = spk
+	}
+	if refHeaderOnly {
+		return o, nil
 	}
 	done := false
 	for n := 0; len(rest) > 0; n++ {
